@@ -75,7 +75,8 @@ class Objective:
 
 
 OPS = [("mutate", 34), ("crossover", 18), ("local_search", 8), ("delete", 6), ("insert", 6), ("change", 12),
-       ("chop", 3), ("ruv", 3), ("clone", 3), ("append", 3), ("exec_result", 4), ("remove_fwd", 5)]
+       ("chop", 3), ("ruv", 3), ("clone", 3), ("append", 3), ("exec_result", 4), ("remove_fwd", 5),
+       ("crossover_boundary", 12), ("clone_append", 5)]
 
 
 def configure(r, maxlen):
@@ -122,7 +123,7 @@ def run_history(cluster, module, alias, hist_seed, n_steps, maxlen, stats):
     gen = tcf.RandomLengthTestCaseFactory(factory, cluster)
     pop = [TestCaseChromosome(gen.get_test_case(), factory) for _ in range(4)]
     fails = []
-    n_ins, n_x = len(rec.inserts), len(rec.xover)
+    n_ins, n_x, n_al = len(rec.inserts), len(rec.xover), len(rec.alias)
 
     last = {}
 
@@ -136,7 +137,12 @@ def run_history(cluster, module, alias, hist_seed, n_steps, maxlen, stats):
             last[k] = fp
             for sig, msg in L.oracle_wf(c.test_case, alias, module, execute=True):
                 fails.append((f"wf:{sig}", f"after {what} (step {step}, chromosome {k}): {msg}\n{c.test_case.to_module().code}", step))
-        nonlocal n_ins, n_x
+        nonlocal n_ins, n_x, n_al
+        for al in rec.alias[n_al:]:
+            fails.append((f"alias:{al['op']}", f"{al['op']} on one test case changed another live test case "
+                          f"(registry {al['before']['reg']!r} -> {al['after']['reg']!r}, "
+                          f"{len(al['before']['stmts'])} -> {len(al['after']['stmts'])} statements) during {what}", step))
+        n_al = len(rec.alias)
         for ins in rec.inserts[n_ins:]:
             stats["insert-calls"] = stats.get("insert-calls", 0) + 1
             if ins["proposed"] and max(ins["proposed"]) > ins["maxlen"]:
@@ -170,6 +176,23 @@ def run_history(cluster, module, alias, hist_seed, n_steps, maxlen, stats):
             elif kind == "crossover":
                 a, b = r.sample(pop, 2)
                 SinglePointRelativeCrossOver().cross_over(a, b)
+            elif kind == "crossover_boundary":
+                # split points SinglePointRelativeCrossOver never draws: 0, the parent's size (nothing is cut
+                # off), the other's size (empty tail); repeated on the same (possibly kept) parents
+                a, b = r.sample(pop, 2)
+                for _ in range(r.choice([1, 2, 3])):
+                    p1 = r.choice([0, a.size(), a.size(), r.randrange(0, a.size() + 1)])
+                    p2 = r.choice([0, 0, b.size(), r.randrange(0, b.size() + 1)])
+                    a.cross_over(b.clone(), p1, p2)
+                    if r.random() < 0.5:
+                        b.cross_over(a.clone(), r.choice([0, b.size()]), r.choice([0, a.size()]))
+            elif kind == "clone_append":
+                # extend a clone without any registry rebuild; the original stays in the population
+                cl = c.clone()
+                o = r.choice(pop)
+                cl.test_case.append_test_case_from(o.test_case, r.randrange(0, o.size() + 1))
+                if r.random() < 0.5:
+                    pop[r.randrange(len(pop))] = cl
             elif kind == "local_search":
                 c.set_last_execution_result(FakeResult(None))
                 TestCaseLocalSearch(None, None, Timer(150)).local_search(c, factory, Objective(r))
@@ -221,6 +244,7 @@ def work(task):
         mod_seed, hists, scratch, sample_seed, cap = task
         rec = recorder()
         rec.steps.clear(), rec.xover.clear(), rec.inserts.clear(), rec.unsupported.clear()
+        rec.alias.clear(), rec.alias_ok.clear(), rec._live.clear()
         rec.origin = "factory"
         name = f"c15sut_{mod_seed}"
         src = L.gen_module_source(random.Random(mod_seed))
@@ -243,6 +267,7 @@ def work(task):
         xo = rec.xover if len(rec.xover) <= cap // 8 else sr.sample(rec.xover, cap // 8)
         return {"steps": [L.c_case(s) for s in steps], "xover": [L.c_xcase(x) for x in xo],
                 "inserts": [L.c_icase(i) for i in rec.inserts[:cap]], "failures": failures, "stats": stats,
+                "alias": [L.c_acase(a) for a in (rec.alias + rec.alias_ok)[:cap // 4]],
                 "unsupported": list(rec.unsupported), "n_steps_total": len(rec.steps)}
     except Exception as e:  # noqa: BLE001
         return {"crash": f"{type(e).__name__}: {e}", "trace": traceback.format_exc()[-3000:]}
@@ -405,7 +430,7 @@ def run(ctx: vlib.Ctx):
     with mp.get_context("fork").Pool(min(16, len(tasks))) as pool:
         results = pool.map(work, tasks, chunksize=1)
     ctx.log("histories done")
-    steps, xover, inserts, stats = [], [], [], {}
+    steps, xover, inserts, stats, alias = [], [], [], {}, []
     n_fail = 0
     total_calls = 0
     for t, res in zip(tasks, results):
@@ -415,6 +440,7 @@ def run(ctx: vlib.Ctx):
         steps += res["steps"]
         xover += res["xover"]
         inserts += res["inserts"]
+        alias += res["alias"]
         total_calls += res["n_steps_total"]
         for k, v in res["stats"].items():
             if isinstance(v, int):
@@ -455,6 +481,7 @@ def run(ctx: vlib.Ctx):
     b_d = ctx.run_cases("C15_direct", IMPORTS, "C15.case", "C15.check_step", dcases, shard=big)
     b3 = ctx.run_cases("C15_xover", IMPORTS, "C15.xcase", "C15.check_crossover", xover, shard=200)
     b4 = ctx.run_cases("C15_insert", IMPORTS, "C15.icase", "C15.check_insert", inserts, shard=5000)
+    b5 = ctx.run_cases("C15_alias", IMPORTS, "C15.acase", "C15.check_alias", alias, shard=big)
     b1 = b2 = None
     if b_f is not None and b_d is not None:
         b1 = [len(steps) + i for i in b_d]
@@ -471,6 +498,7 @@ def run(ctx: vlib.Ctx):
         ("C15-factory-preconditions", b2, steps, "a call issued by the factory code on a well-formed test case violates the precondition under which WF preservation is proved"),
         ("C15-crossover-model", b3, xover, "the crossover model no longer reproduces splice_test_case_chromosomes"),
         ("C15-insertion-loop-model", b4, inserts, "the insertion-loop model (undo of overshooting insertions) no longer reproduces _mutation_insert"),
+        ("C15-value-semantics", b5, alias, "a call on one test case changed another live test case (the model treats test cases as values: clone is independent)"),
     ):
         if bad is None:
             ok = False
